@@ -144,7 +144,8 @@ def molecules(ctx):
     """(name, mol) stream for the K streams."""
     rng = ctx.rng
     out = list(molgen.handmade())
-    out += [(t, molgen.parse(t)) for t in SYMMETRIC + STEREO_PAIRS if molgen.parse(t) is not None]
+    out += [(t, molgen.parse(t)) for t in SYMMETRIC + STEREO_PAIRS + ISOTOPES + EXPLICIT_H_STEREO + ez_catalogue()
+            if molgen.parse(t) is not None]
     out += molgen.corpus(rng, 300 if ctx.quick else 1500)
     n_small = 5 if ctx.quick else 6
     graphs = [g for k in range(2, n_small + 1) for g in molgen.unlabeled_small_graphs(k)]
@@ -780,6 +781,63 @@ STEREO_PAIRS = [
     'C[C@H](F)[C@@H](F)[C@H](C)F', 'CC[C@H](C)O[C@@H](C)CC', 'CC[C@H](C)O[C@H](C)CC',
 ]
 
+# isotope labels, including the one EQUAL to the element's reference isotope, next to an unlabelled twin atom
+ISOTOPES = [
+    '[12CH3]CCC', '[12CH3]C(C)C', '[35Cl]CCCl', '[16OH]CCO', 'Cc1c[12cH]ccc1', '[13CH3]CCC', '[37Cl]CCCl',
+    '[12CH3][12CH2]C[12CH3]', '[14NH2]CCN', '[1H]C([1H])([1H])C', '[2H]C([2H])([2H])C', '[32SH]CCS', '[19F]C(F)F',
+    '[12C](C)(C)(C)C', 'c1cc[14n]cc1', '[79Br]CCBr', '[81Br]CCBr', '[31PH2]CP', '[12CH3]O[13CH3]', '[11BH2]CB',
+]
+
+# stereocentres whose hydrogen is an explicit atom (H, D, T): the first-atom rule of the writer vs the reader
+EXPLICIT_H_STEREO = [
+    'CC[C@]([2H])(N)C', 'CC[C@@]([2H])(N)C', 'N[C@@]([2H])(C)C(=O)O', 'C[C@@]([2H])(O)c1ccccc1', '[2H][C@](F)(Cl)Br',
+    '[3H][C@](F)(Cl)Br', 'OC[C@@]([2H])(O)C=O', 'F[C@]([H])(Cl)Br', '[Na+].[O-]C(=O)[C@]([2H])(C)N', '[2H][C@@](C)(O)CC',
+    'C[C@]([3H])(N)CC', '[2H][C@]1(C)CCCO1', 'CC[C@H](N)C', 'N[C@@H](C)C(=O)O', 'F[C@H](Cl)Br', 'C[C@](F)(Cl)Br',
+    '[2H]C([2H])(C)O', 'C[C@@]([2H])(O)[C@]([2H])(C)N',
+]
+
+
+def ez_catalogue():
+    """constitutionally equivalent stereo double bonds with EVERY E/Z label combination (conjugated, separated by sp3
+    linkers, hetero atoms, carbonyls, aryl rings), plus non-equivalent controls"""
+    templates = ['C{a}C=C{b}CC{c}C=C{d}C', 'C{a}C=C{b}C(=O){c}C=C{d}C', 'C{a}C=C{b}N{c}C=C{d}C', 'F{a}C=C{b}C=C{d}F',
+                 'C{a}C=C{b}c1ccc(cc1){c}C=C{d}C', 'O=C({a}C=C{b}c1ccccc1){c}C=C{d}c1ccccc1', 'CC({a}C=C{b}F)({c}C=C{d}F)Cl',
+                 'C{a}C=C{b}O{c}C=C{d}C', 'C{a}C=C{b}CCC{c}C=C{d}C', 'Cl{a}C=C{b}C{c}C=C{d}Cl', 'C{a}C=C{b}S{c}C=C{d}C',
+                 'C{a}C=C{b}C(=O){c}C=C{d}CC', 'C{a}C=C{b}C=C{d}CC', 'C{a}C=C{b}c1cccc(c1){c}C=C{d}C']
+    out = []
+    for t in templates:
+        for first in ('/', '\\'):
+            for second in (('/', '/'), ('/', '\\')):
+                c, d = second
+                if '{c}' not in t:
+                    c = ''
+                out.append(t.format(a=first, b='/', c=c, d=d))
+    return sorted(set(out))
+
+
+def isotope_decorations(mol, limit=3):
+    """label ONE atom of each symmetry class with tabulated isotopes, always including the element's reference isotope
+    (the one a writer prints as `[12C]` although it is 'the same' mass number as the unlabelled atom)"""
+    cls, atoms, adj = sym_classes(mol)
+    reps = {}
+    for n in mol._atoms:
+        reps.setdefault(cls[n], n)
+    for n in reps.values():
+        a = mol._atoms[n]
+        if a._isotope:
+            continue
+        isos = [a.mdl_isotope] + [i for i in sorted(a.isotopes_distribution) if i != a.mdl_isotope][:limit - 1]
+        for iso in isos:
+            c = mol.copy()
+            try:
+                c._atoms[n]._isotope = iso
+                c.flush_cache()
+                c.calc_labels()
+            except Exception:  # noqa
+                continue
+            yield f'[{iso}]@{n}', c
+
+
 KF_COMPONENT = 'C01/canonical-string-depends-on-numbering/order-of-components-the-refinement-cannot-tell-apart'
 KF_TIE = 'C01/canonical-string-depends-on-numbering/tie-between-same-class-atoms-not-exchangeable-by-symmetry'
 
@@ -942,10 +1000,15 @@ def relational_molecules(ctx):
     from chython import smiles
     rng = ctx.rng
     out = []
-    for s in molgen.HANDMADE + SYMMETRIC + STEREO_PAIRS:
+    for s in molgen.HANDMADE + SYMMETRIC + STEREO_PAIRS + ISOTOPES + EXPLICIT_H_STEREO + ez_catalogue():
         m = molgen.parse(s)
         if m is not None:
             out.append((s, s, m))
+    # one atom of each symmetry class labelled with its reference isotope and with other tabulated isotopes
+    bases = [t for t in SYMMETRIC + molgen.HANDMADE if molgen.parse(t) is not None and 2 <= len(molgen.parse(t)) <= 14]
+    for t in (rng.sample(bases, 14) if ctx.quick else bases):
+        for tag, c in isotope_decorations(molgen.parse(t), limit=2 if ctx.quick else 4):
+            out.append((f'{t}{tag}', None, c))
     smis = molgen.corpus_smiles()
     for i in rng.sample(range(len(smis)), 500 if ctx.quick else 2500):
         m = molgen.parse(smis[i])
@@ -1028,10 +1091,20 @@ def relational(ctx, mols=None, nvar=None):
             if ok and r == 0:
                 compare_formats(ctx, name, base, c, mapping)
         try:
-            t, m2 = reread_own(rng, base)
-            compare(ctx, name, base, s0, h0, 'reread-own-random-spelling', m2, t)
+            from chython import smiles as _smiles
+            m2 = normalise(_smiles(s0))
+            if census(m2) == census(base):
+                compare(ctx, name, base, s0, h0, 'reread-canonical-string', m2, s0)
+            else:
+                ctx.dist('R:skipped:reread-canonical:census-differs')
         except Exception as e:  # noqa
-            ctx.dist('R:skipped:reread-own:' + type(e).__name__)
+            ctx.dist('R:skipped:reread-canonical:' + type(e).__name__)
+        for _ in range(1 if not stereo_elements(base) else 3):
+            try:
+                t, m2 = reread_own(rng, base)
+                compare(ctx, name, base, s0, h0, 'reread-own-random-spelling', m2, t)
+            except Exception as e:  # noqa
+                ctx.dist('R:skipped:reread-own:' + type(e).__name__)
         if text is not None and ' ' not in text and '>' not in text:
             for kek in ((False, True) if not ctx.quick else (rng.random() < 0.5,)):
                 try:
@@ -1096,7 +1169,13 @@ def search(ctx):
                 first.append((what, None, view_to_mol(xs)))
             except Exception:  # noqa
                 continue
-    pools = [first, [(s, s, molgen.parse(s)) for s in SYMMETRIC + molgen.HANDMADE if molgen.parse(s) is not None]]
+    cat = ISOTOPES + EXPLICIT_H_STEREO + ez_catalogue() + STEREO_PAIRS + SYMMETRIC + molgen.HANDMADE
+    deco = []
+    for t in SYMMETRIC + molgen.HANDMADE:
+        m = molgen.parse(t)
+        if m is not None and 2 <= len(m) <= 16:
+            deco += [(f'{t}{tag}', None, c) for tag, c in isotope_decorations(m, limit=4)]
+    pools = [first, [(s, s, molgen.parse(s)) for s in cat if molgen.parse(s) is not None], deco]
     before = len(ctx.failures)
     for pool in pools:
         relational(ctx, pool, nvar=12)
